@@ -8,7 +8,6 @@ import (
 	"runtime/debug"
 	"strings"
 
-
 	"github.com/kardiachain/go-kardia/consensus"
 	"github.com/kardiachain/go-kardia/lib/common"
 	kcons "github.com/kardiachain/go-kardia/proto/kardiachain/consensus"
